@@ -186,6 +186,7 @@ def run(ctx):
 
     # ---------------- R16.6
     product_rewind(ctx)
+    chain_keeps_both(ctx)
 
 
 def lazy_library(ctx):
@@ -325,3 +326,141 @@ def product_rewind(ctx):
             if not ok:
                 r6.fail('%s/deferred-rewind' % strip_generics(mir.enclosing_fn(b)), mirq.site(b, bb), 'when this part iterator runs out the loop over the parts can continue without the part having been given a fresh iterator: with three or more parts two of them run out in the same step and only one rewind survives')
     r6.need(1)
+
+
+def _deps_fs(body, local, seen=None):
+    """backward data dependences of a local, field-sensitive through tuples built in this body (`match (a, b)` scrutinees):
+    returns the set of parameter locals reached"""
+    from .lib.facts import op_place
+    defs = body.defs()
+    seen = seen if seen is not None else set()
+    params = set()
+    todo = [(local, None)]
+    # writes through a pointer derived from a local (`vec![a, b]` fills a box through a raw pointer cast from it) define that local
+    writes = {}
+    for i, j, s in body.stmts():
+        if s['k'] == 'assign' and s['place']['p']:
+            root = s['place']['l']
+            for _ in range(6):
+                writes.setdefault(root, []).append(s)
+                d0 = defs.get(root, [])
+                if len(d0) == 1 and d0[0][0] == 'stmt' and d0[0][3]['rv']['k'] in ('cast', 'use') and op_place(d0[0][3]['rv']['op']) is not None:
+                    root = op_place(d0[0][3]['rv']['op'])['l']
+                else:
+                    break
+    while todo:
+        l, fld = todo.pop()
+        if (l, fld) in seen:
+            continue
+        seen.add((l, fld))
+        ds = defs.get(l, [])
+        for s in writes.get(l, []):
+            for o in [s['rv'].get(k) for k in ('op', 'a', 'b') if isinstance(s['rv'].get(k), dict)] + list(s['rv'].get('ops', [])):
+                q = op_place(o)
+                if q is not None:
+                    todo.append((q['l'], None))
+        if not ds and 1 <= l <= body.d['argc']:
+            params.add(l)
+            continue
+
+        def place(p):
+            f0 = None
+            for e in p['p']:
+                if e == '*':
+                    continue
+                if isinstance(e, dict) and 'f' in e and 'dc' not in e:
+                    f0 = e['f']
+                break
+            todo.append((p['l'], f0))
+        for kind, bb, idx, x in ds:
+            if kind == 'call':
+                for a in x['args']:
+                    p = op_place(a)
+                    if p is not None:
+                        place(p)
+                continue
+            rv = x['rv']
+            if rv['k'] == 'agg' and rv.get('ak') == 'tuple' and fld is not None and fld < len(rv['ops']):
+                p = op_place(rv['ops'][fld])
+                if p is not None:
+                    place(p)
+                continue
+            for key in ('op', 'a', 'b'):
+                if isinstance(rv.get(key), dict):
+                    p = op_place(rv[key])
+                    if p is not None:
+                        # a plain move keeps the field selection (`_104 = _60.0` then `(*_104)`)
+                        if rv['k'] in ('use', 'copyderef') and not [e for e in p['p'] if e != '*']:
+                            todo.append((p['l'], fld))
+                        else:
+                            place(p)
+            if 'place' in rv:
+                place(rv['place'])
+            for o in rv.get('ops', []):
+                p = op_place(o)
+                if p is not None:
+                    place(p)
+    return params
+
+
+def chain_keeps_both(ctx):
+    """R16.7: the stream of add(g0, g1) is the elements of g0 followed by those of g1.  XGenerator::chain flattens nested chains into
+    one list of parts; whatever the shapes of the operands, every list of parts it builds is computed from both of them."""
+    from .lib.facts import op_place
+    mir = ctx.mir
+    r7 = ctx.rule('R16.7', 'every part list built by the generator chain is computed from both operands')
+    bs = [b for b in mir.bodies if re.match(r'builtin::generators::XGenerator(::<[^>]*>)?::chain$', b.nid)]
+    if not bs:
+        r7.fail('anchor/chain', 'src/builtin/generators.rs', 'XGenerator::chain not found')
+        r7.need(1)
+        return
+    b = bs[0]
+    n = 0
+    for i, j, s in b.stmts():
+        if not (s['k'] == 'assign' and s['rv']['k'] == 'agg' and s['rv'].get('v') == 'Chain' and s['rv']['ops']):
+            continue
+        p = op_place(s['rv']['ops'][0])
+        if p is None:
+            continue
+        # the definitions of the part list (one per arm), through plain moves
+        cur = p['l']
+        for _ in range(6):
+            ds = b.defs().get(cur, [])
+            if len(ds) == 1 and ds[0][0] == 'stmt' and ds[0][3]['rv']['k'] == 'use' and op_place(ds[0][3]['rv']['op']) is not None and not op_place(ds[0][3]['rv']['op'])['p']:
+                cur = op_place(ds[0][3]['rv']['op'])['l']
+            else:
+                break
+        for kind, bb, idx, x in b.defs().get(cur, []):
+            ops = x['args'] if kind == 'call' else ([x['rv'].get(k) for k in ('op', 'a', 'b') if isinstance(x['rv'].get(k), dict)] + list(x['rv'].get('ops', [])))
+            reached = set()
+            for o in ops:
+                q = op_place(o)
+                if q is not None:
+                    f0 = next((e['f'] for e in q['p'] if isinstance(e, dict) and 'f' in e and 'dc' not in e), None)
+                    reached |= _deps_fs(b, q['l']) if f0 is None else _deps_fs_field(b, q['l'], f0)
+            ok = {1, 2} <= reached
+            n += 1
+            r7.inst({'part_list_built_at': mirq.site(b, bb, idx if kind != 'call' else None), 'computed_from_operands': sorted(reached)}, ok=ok, kind=(bb,))
+            if not ok:
+                r7.fail('chain/part-list-omits-operand-%s' % ('-'.join(str(k) for k in sorted({1, 2} - reached))), mirq.site(b, bb, idx if kind != 'call' else None), 'a part list of the chained generator is built without operand %s: its elements are missing from the stream (add(repeat(empty), g) yields nothing instead of the elements of g)' % sorted({1, 2} - reached))
+    r7.need(3)
+
+
+def _deps_fs_field(body, local, fld):
+    seen = set()
+    return _deps_fs_start(body, local, fld, seen)
+
+
+def _deps_fs_start(body, local, fld, seen):
+    # start the walk at a field of a tuple local
+    from .lib.facts import op_place
+    ds = body.defs().get(local, [])
+    out = set()
+    for kind, bb, idx, x in ds:
+        if kind == 'stmt' and x['rv']['k'] == 'agg' and x['rv'].get('ak') == 'tuple' and fld < len(x['rv']['ops']):
+            p = op_place(x['rv']['ops'][fld])
+            if p is not None:
+                out |= _deps_fs(body, p['l'], seen)
+        else:
+            out |= _deps_fs(body, local, seen)
+    return out
